@@ -29,7 +29,7 @@ func main() {
 	sum := tl.NewSummary("c45", *mode, seed)
 	switch *mode {
 	case "enrbase":
-		bases := makeBases(seed)
+		bases := makeBases(seed, sum)
 		b, _ := json.Marshal(map[string]any{"bases": bases})
 		if err := os.WriteFile(*o, b, 0o644); err != nil {
 			tl.Fatal("write bases: %v", err)
